@@ -101,9 +101,30 @@ SEEDS = {
 }
 
 
+def source_dir(sid: str) -> Path:
+    pid, n = sid.split('-')
+    n = int(n)
+    rnd = (n - 1) // 2 + 1  # seeds 1,2 = round 1; 3,4 = round 2; ...
+    k = (n - 1) % 2 + 1
+    return Path(f'/tmp/seed{"" if rnd == 1 else rnd}-{pid}/out/mut{k}')
+
+
+def seed_info(sid: str):
+    """(change, needs, checks): from the table above or from seeded/<sid>/idea.txt
+    (line 1 = change, line 2 = what it needs, optional line 3 = space-separated check ids)."""
+    f = SEEDED / sid / 'idea.txt'
+    if f.exists():
+        lines = [x.strip() for x in f.read_text().splitlines() if x.strip()]
+        checks = lines[2].split() if len(lines) > 2 else [sid.split('-')[0]]
+        return lines[0], lines[1] if len(lines) > 1 else '', checks
+    if sid in SEEDS:
+        return SEEDS[sid]
+    return '', '', [sid.split('-')[0]]
+
+
 def archive(sid: str):
     pid, n = sid.split('-')
-    src = Path(f'/tmp/seed-{pid}/out/mut{n}')
+    src = source_dir(sid)
     dst = SEEDED / sid
     dst.mkdir(parents=True, exist_ok=True)
     if src.exists():
@@ -127,7 +148,7 @@ def archive(sid: str):
 
 def evaluate(sid: str):
     dst = SEEDED / sid
-    checks = SEEDS[sid][2]
+    checks = seed_info(sid)[2]
     r = subprocess.run([str(VERIF / 'tools/eval_seed.sh'), str(dst), *checks], capture_output=True, text=True, cwd=VERIF)
     (dst / 'eval.txt').write_text(r.stdout + r.stderr)
     return r.stdout
@@ -143,7 +164,7 @@ def meta(sid: str):
     for m in re.finditer(r'== check (C\d+): rc=(\d+) (\d+)s\s*(?:signature: (\S+))?', ev):
         caught[m.group(1)] = {'exit': int(m.group(2)), 'seconds': int(m.group(3)), 'first_signature': m.group(4)}
     head = subprocess.run(['git', '-C', '/repo', 'rev-parse', '--short', 'HEAD'], capture_output=True, text=True).stdout.strip()
-    idea, needs, checks = SEEDS[sid]
+    idea, needs, checks = seed_info(sid)
     rec = {
         'property': sid.split('-')[0],
         'origin': 'independent sub-agent given only the property text and a scratch worktree of /repo (no access to /verif)',
@@ -168,7 +189,7 @@ def meta(sid: str):
 if __name__ == '__main__':
     args = [a for a in sys.argv[1:] if not a.startswith('--')]
     do_eval = '--eval' in sys.argv
-    ids = args or [s for s in SEEDS if Path(f'/tmp/seed-{s.split("-")[0]}/out/mut{s.split("-")[1]}').exists() or (SEEDED / s).exists()]
+    ids = args or [s for s in SEEDS if source_dir(s).exists() or (SEEDED / s).exists()]
     for sid in ids:
         archive(sid)
         if do_eval:
